@@ -13,6 +13,13 @@ func init() {
 }
 
 func vStdCfg(prefix, idBase string, nDocs int, wide int) gCfg {
+	if vParam("lite", 0) == 1 {
+		return gCfg{prefix: prefix, idBase: idBase, nDocs: nDocs, wide: wide, maxAP: 1, idDV: true,
+			fields: []gField{
+				{name: "f", terms: []string{""}, tv: true, maxLocs: 1, dv: true, store: true},
+				{name: "g", terms: []string{"é"}, dv: true},
+			}}
+	}
 	return gCfg{prefix: prefix, idBase: idBase, nDocs: nDocs, wide: wide, freqZero: true, maxAP: 1, idDV: true,
 		fields: []gField{
 			{name: "f", terms: []string{"", "a"}, tv: true, maxLocs: 1, dv: true, store: true},
@@ -40,7 +47,7 @@ func sbStateEq(a, b *SegmentBase, tag string) {
 
 // H04_persist: build, Persist, Open: equal state, equal answers; WriteTo == file bytes; footer content.
 func H04_persist() {
-	docs, sp := vGenBatch(vStdCfg("", "d", 1+vChoice("nDocs", 2), -1))
+	docs, sp := vGenBatch(vStdCfg("", "d", 1+vChoice("nDocs", vParam("maxDocs", 2)), -1))
 	mode := vChunkMode()
 	var z ZapPlugin
 	seg, _, err := z.newWithChunkMode(docs, mode)
